@@ -264,52 +264,54 @@ def enumerate_requests(entries, class_map, rng, thorough):
                 yield {"kind": "ctor", "key": key, "path": path, "targets": t, "controls": c, "arg": ca, "cv": ABSENT if not e["cvRequired"] else 1}
 
 
-def sweep_requests(entries, class_map):
-    """the oracle's systematic sweep: every class / path, well-formed placements (controls as integer and as list), every
-    control value in [-2^m-1, 2^m+1] and none, the documented arg_value"""
-    for e in entries:
-        key = e["key"]
+SINGLE_TARGETS = ["X", "Y", "Z", "RX", "RY", "RZ", "H", "SQRTNOT", "S", "T", "R", "QASMU"]
+
+
+def doc_arg_shape(name):
+    """the documented shape of arg_value of the gate `name`"""
+    want = DOC_ARGS.get(name)
+    if want is None:
+        return ABSENT
+    return "s" if want == [None] else ("l", want[-1])
+
+
+def sweep_requests():
+    """the oracle's systematic sweep — independent of the translator and of the model: every key of the runtime
+    GATE_CLASS_MAP (class path and add_gate by name), ControlledGate x every single-qubit target class, Gate(name) for every
+    documented name; well-formed placements (controls as integer and as list, or all qubits as targets), every control
+    value in [-2^m-1, 2^m+1] and none, the documented arg_value"""
+    from qutip_qip.operations import gateclass
+    from props.c09 import SHAPES
+    class_map = gateclass.GATE_CLASS_MAP
+    keys = [(k, ["class", "circuit"]) for k in class_map]
+    keys += [("ControlledGate:" + t, ["class"]) for t in SINGLE_TARGETS if hasattr(gateclass, t)]
+    keys += [("Gate:" + n, ["class"] + ([] if n in class_map else ["circuit"])) for n in SHAPES
+             if n not in ("H", "MS", "RZX", "CX", "iSWAP", "SWAPALPHA")]
+    for key, paths in keys:
         name = doc_name(key)
-        ca = canonical_arg(e)
-        if key.startswith("ControlledGate:"):
+        generic_ctrl = key.startswith("ControlledGate:")
+        if generic_ctrl:
+            tn = key.split(":", 1)[1]
+            ca = doc_arg_shape("SNOT" if tn == "H" else tn)
             places = [([0], [1]), (0, 1), ([1, 0], [2]), ([0, 2], 1), ([2, 0, 1], [3])]
         elif name in CONTROLLED:
+            ca = doc_arg_shape(name)
             m, tn = CONTROLLED[name]
             nt = 2 if name == "FREDKIN" else 1
             places = [(list(range(m)), list(range(m, m + nt))), (ABSENT, list(range(m + nt)))]
             if m == 1:
                 places.append((0, 1 if nt == 1 else [1, 2]))
         else:
-            nt = 2 if e["arity"] == "two" or name in ("SWAP", "ISWAP", "SQRTSWAP", "SQRTISWAP", "BERKELEY", "SWAPalpha") else 1
+            ca = doc_arg_shape(name)
+            nt = SHAPES[name][1]
             places = [(ABSENT, list(range(nt)))] + ([(ABSENT, 0)] if nt == 1 else [])
-        for path in paths_of(e, class_map):
+        for path in paths:
             for c, t in places:
                 m = 1 if isinstance(c, int) else len(c) if isinstance(c, list) else CONTROLLED.get(name, (1,))[0]
                 for v in [ABSENT] + list(range(-2 ** m - 1, 2 ** m + 2)):
-                    if e["cvRequired"] and v == ABSENT:
+                    if generic_ctrl and v == ABSENT:
                         continue
                     yield {"kind": "ctor", "key": key, "path": path, "targets": t, "controls": c, "arg": ca, "cv": v}
-
-
-def excluded(w, entries_by_key):
-    """request classes for which Props/C09.lean proves the NEGATION of the property on the current source (a theorem
-    `ctor_*_counterexample` whose hypothesis is the regenerated flag), proposed as findings C09-2 / C09-3:
-      * CPHASE does not hand a given control_value on (fwdCV = false): any value is accepted and ignored;
-      * the classes with a fixed matrix outside the ControlledGate hierarchy (TOFFOLI, FREDKIN, the generic Gate(name) of a
-        controlled gate) store control_value and never read it (fixedGuard = false)."""
-    e = entries_by_key.get(w["key"])
-    cv = w["cv"]
-    if e is None or cv == ABSENT or cv is None:
-        return None
-    name = doc_name(w["key"])
-    if name not in CONTROLLED:
-        return None
-    m = CONTROLLED[name][0]
-    if e["controlled"] and e["oneCtrl"] and not e["fwdCV"] and not e["usesCV"] and cv != 1:
-        return "C09-2"
-    if not e["controlled"] and not e["fixedGuard"] and cv != 2 ** m - 1:
-        return "C09-3"
-    return None
 
 
 # ------------------------------------------------------------------------------------------------------------------
